@@ -23,19 +23,19 @@ PROFILES: dict[str, dict[str, Any]] = {
                          "sleep": 10, "await": 5, "chkif": 5, "raise": 1, "deadline": 4, "finally": 5},
                 max_len=6),
     "C04": dict(weights={"scope": 18, "cancel": 14, "shield": 7, "cbcancel": 3, "raise": 3, "group": 5,
-                         "spawn": 6, "ncancel": 3, "finally": 4}, max_len=5, max_depth=5),
+                         "spawn": 6, "ncancel": 3, "finally": 4, "raisegroup": 5}, max_len=5, max_depth=5),
     "C05": dict(weights={"scope": 16, "cancel": 12, "ncancel": 6, "uncancel": 3, "catchall": 4, "group": 6,
                          "spawn": 8, "hcancel": 6, "deadline": 4, "raise": 2, "sleep": 8}, max_len=6),
     "C06": dict(weights={"scope": 16, "deadline": 10, "sleep": 14, "effdl": 6, "cancel": 4, "shield": 3,
-                         "raise": 1, "group": 4, "spawn": 5}, max_len=6),
+                         "raise": 1, "group": 4, "spawn": 5, "failafter": 10}, max_len=6),
     "C07": dict(weights={"start": 16, "started": 12, "group": 10, "cancel": 10, "raise": 6, "spawn": 6,
                          "finally": 5, "hcancel": 3, "sleep": 6}, max_len=5),
 }
 
 # level claimed per property (kept in step with tools/gen_manifest.py): "proof" once the property's
 # theorems over the kernel model are in lean/AnyioModel/Props/Cxx.lean
-LEVELS = {p: "translation_validation" for p in ("C01", "C02", "C03", "C05", "C07")}
-LEVELS.update(C04="proof", C06="proof", C05="proof")
+LEVELS = {p: "proof" for p in ("C01", "C02", "C04", "C05", "C06", "C07")}
+LEVELS.update(C03="translation_validation")
 
 RULES = {
     "C01": "child spawned and group exited",
